@@ -193,6 +193,26 @@ fn judge(c: &Cfg, faults: &[(u64, FaultKind)], draws: &[DrawObs], p: &mut Partia
         // ---- step counts ----
         let eps = dr.step_size;
         let base = ((c.subsample * c.length / eps).round().max(1.0).min(1e6)) as u64;
+        // ---- both half-updates at one point use the same gradient ----
+        // (a draw without fault, divergence or retry is the plain sequence first, second, first,
+        // second, ..: the second half-update of a step and the first of the next step happen at
+        // the same point of the same transformation, whatever that transformation is)
+        if faults.is_empty() && !dr.diverging && dr.num_steps == base {
+            let eshs: Vec<&Vec<f64>> = dr.events.iter().filter_map(|e| if let SpyEvent::Esh { grad, .. } = e { Some(grad) } else { None }).collect();
+            if eshs.len() as u64 == 2 * base {
+                for k in 0..(base as usize).saturating_sub(1) {
+                    p.count("half_update_gradient_pairs_compared", 1);
+                    if !mc_core::slice_bits_eq(eshs[2 * k + 1], eshs[2 * k + 2]) {
+                        viol(
+                            "half-updates-at-one-point-use-different-gradients",
+                            format!("draw {d}, step {k}: second half-update with {:?}, first half-update of the next step with {:?}", &eshs[2 * k + 1][..c.dim.min(3)], &eshs[2 * k + 2][..c.dim.min(3)]),
+                            p,
+                        );
+                        return;
+                    }
+                }
+            }
+        }
         if !dr.diverging {
             if c.dynamic {
                 if dr.num_steps < base {
